@@ -113,4 +113,4 @@ def check(prop, tier, replay=None):
                                'history formulas of ExploreProps.tla are evaluated by TLC (ExploreEval) on the event histories recorded from the real explorer')
         return C.conclude(prop, tier, 'model_checking', cov, t0, violations,
                           assumptions=['a probe request arriving within 10 ms after a discovery update counts as started before it',
-                                       'retry judged only when the history extends at least 4 retry intervals beyond the failure'])
+                                       'retry judged only when the history extends at least 10 retry intervals beyond the failure (the harness waits up to 1.5 s for due retries)'])
